@@ -110,6 +110,12 @@ func (m *Machine) binop(op token.Token, tx, ty types.Type, x, y Value) Value {
 					return BV(64, r)
 				}
 			}
+			if signed && yt.IsConst() && xt.Sort.W == 64 && int64(yt.C) > 0 {
+				if op == token.QUO {
+					return m.path.divConst(xt, yt.C)
+				}
+				return m.path.remConst(xt, yt.C)
+			}
 			if op == token.QUO {
 				if signed {
 					return BVBin(OpBVSDiv, xt, yt)
